@@ -225,6 +225,13 @@ def streamCmd (arg : String) : String :=
     (match name with
      | "map" => streamOut (Str.mapT (· + 1)) src n
      | "double" => streamOut (Str.mapT (· * 2)) src n
+     | "addk" => streamOut (Str.mapT (· + (k : Int))) src n
+     | "kadd" => streamOut (Str.mapT (fun x => (k : Int) + x)) src n
+     | "ksub" => streamOut (Str.mapT (fun x => (k : Int) - x)) src n
+     | "kmul" => streamOut (Str.mapT (fun x => (k : Int) * x)) src n
+     | "ltk" => streamOut (Str.mapT (fun x => if x < (k : Int) then 1 else 0)) src n
+     | "klt" => streamOut (Str.mapT (fun x => if (k : Int) < x then 1 else 0)) src n
+     | "neg" => streamOut (Str.mapT (fun x => -x)) src n
      | "cumsum" => streamOut Str.cumsumT src n
      | "deltas" => streamOut Str.deltasT src n
      | "windows" => streamOut (Str.windowsT (k - 1)) src n
